@@ -177,7 +177,7 @@ class SystemTransport(Transport):
             raise ScrapliConnectionNotOpened
         try:
             buf = self.session.read(65535)
-        except EOFError as exc:
+        except (EOFError, OSError) as exc:
             msg = (
                 "encountered EOF reading from transport; typically means the device closed the "
                 "connection"
@@ -190,4 +190,9 @@ class SystemTransport(Transport):
     def write(self, channel_input: bytes) -> None:
         if not self.session:
             raise ScrapliConnectionNotOpened
-        self.session.write(channel_input)
+        try:
+            self.session.write(channel_input)
+        except OSError as exc:
+            msg = "failed writing to transport; typically means the device closed the connection"
+            self.logger.critical(msg)
+            raise ScrapliConnectionError(msg) from exc
